@@ -43,7 +43,8 @@ def suite():
 
 
 def demo(ddir):
-    for name in ("run.sh", "run_demo.sh"):
+    names = ["run.sh", "run_demo.sh", "build_and_run.sh", "run_binary.sh"] + sorted(f for f in os.listdir(ddir) if f.endswith(".sh"))
+    for name in names:
         f = os.path.join(ddir, name)
         if os.path.exists(f):
             rc, out = sh(["bash", f, CLONE], cwd=ddir, timeout=3600)
